@@ -47,4 +47,6 @@ TraceAccepted ==
     LET d == TLCGet("stats").diameter IN
     IF d - 1 = Len(Rec) THEN TRUE ELSE Print(<<"TRACE_REJECTED", d, Rec[d]>>, FALSE)
 V_C13 == viol = {}
+\* C03: a delivery whose self-pipe wake blocks or spins on a full descriptor waits for somebody else.
+V_C03 == viol \cap {"delivery_blocked_on_the_pipe", "delivery_blocked_on_the_iterator_pipe"} = {}
 =============================================================================
